@@ -1852,6 +1852,128 @@ def stream_autograd_api(ctx, model):
         _cmp_vec(ctx, "linadj", {"branch": branch, "M": G.enc(M), "y": G.enc(yv)}, impl, np.asarray(got, dtype=np.complex128), linadj_oracle)
 
 
+API_ARGNUMS = [0, 1, 2, (0, 1), (1, 2), (0, 2)]
+
+
+def _api_table_setup(case):
+    """fun(p0, p1, p2) = sum |A0 p0 + A1 p1 + A2 p2 - y|^2 with complex A_i, y; argument i real or complex"""
+    import jax.numpy as jnp
+    import scico.numpy as snp
+
+    ns, kinds = case["ns"], case["kinds"]
+    m = case["m"]
+    As = [jnp.asarray(G.dec(a, (m, n_), True), dtype=np.complex128) for a, n_ in zip(case["As"], ns)]
+    yj = jnp.asarray(G.dec(case["y"], (m,), True), dtype=np.complex128)
+    cdt = lambda c: np.complex128 if c else np.float64  # noqa: E731
+    args = [snp.array(np.asarray(G.dec(x, (n_,), k), dtype=cdt(k))) for x, n_, k in zip(case["xs"], ns, kinds)]
+
+    def fun(p0, p1, p2):
+        return jnp.sum(jnp.abs(As[0] @ p0 + As[1] @ p1 + As[2] @ p2 - yj) ** 2)
+
+    def fun_aux(p0, p1, p2):
+        return fun(p0, p1, p2), {"aux": p1}
+
+    return fun, fun_aux, args
+
+
+def _api_table_call(case, fun, fun_aux, args):
+    """-> (value or None, tuple of gradients for the selected arguments)"""
+    import scico
+
+    an = case["argnums"]
+    an_ = tuple(an) if isinstance(an, (list, tuple)) else an
+    aux, api = case["has_aux"], case["api"]
+    f = fun_aux if aux else fun
+    if api == "grad":
+        out = scico.grad(f, argnums=an_, has_aux=aux)(*args)
+        val, g = None, (out[0] if aux else out)
+    else:
+        out = scico.value_and_grad(f, argnums=an_, has_aux=aux)(*args)
+        val, g = (out[0][0] if aux else out[0]), out[1]
+    sel = list(an_) if isinstance(an_, tuple) else [an_]
+    gs = list(g) if isinstance(an_, tuple) else [g]
+    return val, sel, gs
+
+
+def api_table_oracle(case):
+    """Re<g, d> over the differentiated arguments vs the finite-difference directional derivative of fun"""
+    import scico.numpy as snp
+
+    common.setup_scico()
+    fun, fun_aux, args = _api_table_setup(case)
+    _, sel, gs = _api_table_call(case, fun, fun_aux, args)
+    rr = np.random.Generator(np.random.PCG64(29))
+    for _ in range(4):
+        ds = {i: np.asarray(G.dy(rr, (case["ns"][i],), case["kinds"][i]), dtype=np.asarray(args[i]).dtype) for i in sel}
+
+        def at(h):
+            a = list(args)
+            for i in sel:
+                a[i] = args[i] + h * snp.array(ds[i])
+            return float(fun(*a))
+
+        h = 2.0**-9
+        D = lambda hh: (at(hh) - at(-hh)) / (2 * hh)  # noqa: E731
+        fd = (4 * D(h / 2) - D(h)) / 3
+        ri = float(sum(np.real(np.sum(np.conj(np.asarray(g)) * ds[i])) for i, g in zip(sel, gs)))
+        if abs(fd - ri) > 1e-5 * (1 + abs(fd)):
+            return {"api": case["api"], "argnums": case["argnums"], "has_aux": case["has_aux"],
+                    "argument_dtypes": ["complex" if k else "real" for k in case["kinds"]], "xs": case["xs"],
+                    "d": {str(i): G.enc(ds[i]) for i in sel}, "re_inner_grad_d": ri, "finite_difference": fd}
+    return None
+
+
+def stream_api_table(ctx, model):
+    """EXHAUSTIVE small table of the conjugating wrappers: argnums in {0,1,2,(0,1),(1,2),(0,2)} x the dtype kind of
+    each of three arguments (real/complex independently) x has_aux x {grad, value_and_grad}: gradient of every
+    selected argument (value, dtype) vs the model (`grad` of the squared loss of the concatenated argument; real
+    part for a real argument), value vs the model"""
+    rng = ctx.rng
+    ntab = 0
+    for _ in range(ctx.n(1, 4)):
+        ns = [int(rng.integers(1, 3)) for _ in range(3)]
+        m = int(rng.integers(1, 4))
+        As = [G.dy(rng, (m, n_), True) for n_ in ns]
+        y = G.dy(rng, (m,), True)
+        for kbits in range(8):
+            kinds = [bool(kbits & 1), bool(kbits & 2), bool(kbits & 4)]
+            xs = [G.dy(rng, (n_,), k) for n_, k in zip(ns, kinds)]
+            x = np.concatenate([np.asarray(v, dtype=np.complex128) for v in xs])
+            n = sum(ns)
+            t = {"k": "sqL2Loss", "s": 1.0, "op": {"kind": "matrix", "m": m, "M": G.enc(np.hstack(As))}, "y": G.enc(y), "w": None}
+            got = model.call("fn", n=n, x=G.cv(x), f=G.to_model(t, n))
+            mg, mval = G.from_cv(got["grad"]), common.b2f(got["eval"])
+            offs = np.concatenate([[0], np.cumsum(ns)])
+            base = {"tag": "api_table", "ns": ns, "m": m, "kinds": kinds, "As": [G.enc(a) for a in As], "y": G.enc(y), "xs": [G.enc(v) for v in xs]}
+            fun, fun_aux, args = _api_table_setup(base)
+            for an in API_ARGNUMS:
+                for aux in (False, True):
+                    for api in ("grad", "value_and_grad"):
+                        case = dict(base, argnums=list(an) if isinstance(an, tuple) else an, has_aux=aux, api=api)
+                        val, sel, gs = _api_table_call(case, fun, fun_aux, args)
+                        ctx.case({"tag": "api_table", "kinds": kinds, "argnums": str(an), "has_aux": aux, "api": api},
+                                 ("api_table", tuple(kinds), str(an), aux, api, tuple(ns), m))
+                        ctx.count("api_table:cells")
+                        ntab += 1
+                        if len(gs) != len(sel):
+                            ctx.disagree("api_table.structure", case, len(gs), len(sel), oracle=api_table_oracle)
+                            continue
+                        if val is not None and not common.close(float(val), mval, TOLK):
+                            ctx.disagree("api_table.value", case, float(val), mval, oracle=api_table_oracle)
+                            continue
+                        for i, g in zip(sel, gs):
+                            want = mg[offs[i]:offs[i + 1]]
+                            if not kinds[i]:
+                                want = want.real.astype(np.complex128)  # real argument: JAX's cotangent is the real part
+                            if np.asarray(g).dtype != np.asarray(args[i]).dtype:
+                                ctx.disagree("api_table.dtype", case, str(np.asarray(g).dtype), str(np.asarray(args[i]).dtype), oracle=api_table_oracle)
+                                break
+                            if not _cmp_vec(ctx, "api_table.grad", case, g, want, api_table_oracle):
+                                break
+    ctx.extra.setdefault("exhaustive_scopes", {})["scico.grad / value_and_grad options"] = (
+        "argnums in {0,1,2,(0,1),(1,2),(0,2)} x (real|complex)^3 argument dtypes x has_aux x {grad, value_and_grad}: all 192 cells per table")
+
+
 def linadj2_oracle(case):
     """two primals: <adj(y), (p, q)> = <y, M1 p + M2 q> on the declared argument types"""
     import jax.numpy as jnp
@@ -1962,7 +2084,7 @@ def correspond(ctx, model):
     common.setup_scico()
     warnings.filterwarnings("ignore", message="Casting complex values to real")
     for stream in (run_corpus, stream_boundary, stream_l21, stream_tv, stream_setdist, stream_linop_loss, stream_fn, stream_blocks, stream_single, stream_real_arg,
-                   stream_div_reject, stream_jac, stream_jac_block, stream_jac_mixed, stream_function, stream_hess, stream_heap, stream_heap_exhaustive, stream_autograd_api, stream_linadj2):
+                   stream_div_reject, stream_jac, stream_jac_block, stream_jac_mixed, stream_function, stream_hess, stream_heap, stream_heap_exhaustive, stream_autograd_api, stream_api_table, stream_linadj2):
         _guard(ctx, model, stream)
 
 
@@ -2199,7 +2321,9 @@ def replay(ctx, model, case):
     c = case.get("case", case)
     op = case.get("op", "")
     r = None
-    if c.get("tag") == "api":
+    if c.get("tag") == "api_table":
+        r = api_table_oracle(c)
+    elif c.get("tag") == "api":
         r = api_oracle(c)
     elif "tree" in c and "x" in c and op.startswith("fn"):
         r = fn_oracle(ctx.seed)(c)
